@@ -26,7 +26,7 @@ type rec struct {
 	units     string // units statement in the source
 	unitsSeen string // what Entry.Units shows: goyang fills it from deviations only (a leaf's own units live on its AST node and type)
 	removed   bool
-	ordUser   bool // ordered-by user (lists and leaf-lists): no deviation names it, so it never changes
+	ordUser   bool   // ordered-by user (lists and leaf-lists): no deviation names it, so it never changes
 	parent    string // "", "box" (container), "lst" (list), "ca" (case of choice ch), "g" (grouping used by u1 and u2), "aug"/"late" (added by module a's augments)
 }
 
